@@ -8,7 +8,8 @@ Python anchors (formlio/forml):
   forml/io/dsl/_struct/kind.py   Any.match (class lattice of the primitive kinds)
 
 Field names are naturals (the harness numbers the distinct names); payload cells are an arbitrary
-type `α` and the value-level cast is an uninterpreted parameter `cast : Kind → α → α`.
+type `α` and the value-level cast is an uninterpreted parameter `cast : Kind → α → Option α`
+(`none` = the constructor raised, i.e. `dsl.CastError`).
 -/
 namespace ForML.Entry
 
@@ -64,7 +65,9 @@ inductive Kind where
   deriving DecidableEq, Repr, Inhabited
 
 /-- `expected.match(actual)` = `isinstance(actual, type(expected))`: reflexive, and `Timestamp`
-is a subclass of `Date`. (Re-checked against the live classes by `ForML.Generated.C15Kinds`.) -/
+is a subclass of `Date`. This is a *snapshot* used by the concrete examples; the reader model below is
+parametric in the match relation `km`, the driver instantiates it with the relation extracted from the
+live classes (`ForML.Generated.C15Kinds.liveMatch`) and the theorems hold for every reflexive `km`. -/
 def kmatch (expected actual : Kind) : Bool :=
   expected == actual || (expected == .date && actual == .timestamp)
 
@@ -200,54 +203,66 @@ def slicer {α : Type} (features : List Int) (labels : Int ⊕ List Int) (t : Ta
 
 /-! ### `Reader._cast` and `Reader.__call__` (entry branch) -/
 
-/-- the dict comprehension of `Reader._cast`:
-`{e.name: c if e.kind.match(a.kind) else [e.kind.cast(v) for v in c] for e, a, c in zip(expected, actual, columns)}`
-(`zip` stops at the shortest; query names are unique — `dsl.Schema` refuses duplicates — so the dict
-is the list). -/
-def castColumns {α : Type} (cast : Kind → α → α) :
-    List Field → List Field → List (List α) → List (Name × List α)
-  | e :: es, a :: as, c :: cs =>
-    (e.name, if kmatch e.kind a.kind then c else c.map (cast e.kind)) :: castColumns cast es as cs
-  | _, _, _ => []
+/-- one value of the dict comprehension of `Reader._cast`:
+`c if e.kind.match(a.kind) else [e.kind.cast(v) for v in c]`. `cast k v = none` is `dsl.CastError`
+(`Any.cast` wraps the `ValueError`/`TypeError` of the constructor); one failing cell aborts the call. -/
+def castColumn {α : Type} (km : Kind → Kind → Bool) (cast : Kind → α → Option α) (e a : Field) (c : List α) : Option (List α) :=
+  if km e.kind a.kind then some c else mapOpt (cast e.kind) c
 
-/-- the cast plan alone: for every delivered column, the kind it is cast to (`none` = left as is). -/
-def castPlan : List Field → List Field → List (Name × Option Kind)
-  | e :: es, a :: as => (e.name, if kmatch e.kind a.kind then none else some e.kind) :: castPlan es as
-  | _, _ => []
+/-- the dict comprehension of `Reader._cast`:
+`{e.name: … for e, a, c in zip(expected, actual, data.to_columns())}`
+(`zip` stops at the shortest; query names are unique — `dsl.Schema` refuses duplicates — so the dict
+is the list). `none` = a `CastError` was raised while building it. -/
+def castColumns {α : Type} (km : Kind → Kind → Bool) (cast : Kind → α → Option α) :
+    List Field → List Field → List (List α) → Option (List (Name × List α))
+  | e :: es, a :: as, c :: cs =>
+    match castColumn km cast e a c, castColumns km cast es as cs with
+    | some c', some rest => some ((e.name, c') :: rest)
+    | _, _ => none
+  | _, _, _ => some []
 
 /-- `laymod.Frame(pandas.DataFrame(columns))` -/
 def frameOf {α : Type} (cols : List (Name × List α)) : Tab α :=
   .frame ⟨cols.map (·.2), ((cols.head?).map (·.2.length)).getD 0⟩
 
-/-- `Reader._cast(expected, actual, data)`; `schemasEqual` is the `actual == expected` test. -/
-def castStep {α : Type} (cast : Kind → α → α) (schemasEqual : Bool) (expected actual : List Field)
-    (data : Tab α) : Tab α :=
-  if schemasEqual then data else frameOf (castColumns cast expected actual data.toColumns)
+/-- `Reader._cast(expected, actual, data)`; `schemasEqual` is the `actual == expected` test
+(`none` = `CastError`). -/
+def castStep {α : Type} (km : Kind → Kind → Bool) (cast : Kind → α → Option α) (schemasEqual : Bool) (expected actual : List Field)
+    (data : Tab α) : Option (Tab α) :=
+  if schemasEqual then some data else (castColumns km cast expected actual data.toColumns).map frameOf
 
 inductive Outcome (α : Type) where
   | missing                 -- forml.MissingError('Augmentation not supported …')
   | indexError              -- cannot happen (theorem), kept because `take_columns` can raise
+  | castError               -- dsl.CastError out of `_cast`
   | data (t : Tab α)
   deriving Repr, DecidableEq
 
 /-- the entry schema as `_cast` sees it.
 * `legacy = true` — the code as released: `self._cast(statement.schema, entry.schema, data)`, the
   **un-permuted** entry schema next to the already permuted columns (defect D16);
-* `legacy = false` — the repaired code (fixes/C15-cast-permuted-schema.diff): the entry fields
-  re-ordered by the same `indices` as the data. -/
+* `legacy = false` — the repaired code (fixes/C15-cast-permuted-schema.diff, /repo 8698b70): the entry
+  fields re-ordered by the same `indices` as the data (`tuple(fields[i] for i in indices)`). -/
 def actualFields (legacy : Bool) (e : List Field) (idx : List Nat) : List Field :=
   if legacy then e else idx.filterMap (e[·]?)
 
-/-- `Reader.__call__(statement, entry)` for a non-`None` entry. -/
-def readerCall {α : Type} (cast : Kind → α → α) (legacy : Bool) (q e : List Field) (data : Tab α) :
+/-- `Reader.__call__(statement, entry)` for a non-`None` entry (`layout.Entry` is a 2-tuple: always
+truthy). In the re-ordered branch `actual` is a tuple of fields, which never `==` a schema class, so
+the `actual == expected` shortcut of `_cast` is not taken there. -/
+def readerCall {α : Type} (km : Kind → Kind → Bool) (cast : Kind → α → Option α) (legacy : Bool) (q e : List Field) (data : Tab α) :
     Outcome α :=
   match matchEntry (q.map (·.name)) (e.map (·.name)) with
   | (false, _) => .missing                                   -- if not complete: raise MissingError
   | (true, some (i :: is)) =>                                -- `if indices` (a non-empty tuple)
     match data.takeColumns ((i :: is).map Int.ofNat) with    -- entry.data.take_columns(indices)
     | none => .indexError
-    | some d => .data (castStep cast false q (actualFields legacy e (i :: is)) d)
+    | some d =>
+      match castStep km cast false q (actualFields legacy e (i :: is)) d with
+      | none => .castError
+      | some out => .data out
   | (true, _) =>                                             -- None or (): data = entry.data
-    .data (castStep cast (decide (e = q)) q e data)
+    match castStep km cast (decide (e = q)) q e data with
+    | none => .castError
+    | some out => .data out
 
 end ForML.Entry
